@@ -111,6 +111,9 @@ def programs(tier):
                                       el('r', use('m1', el('li', 'LEAK', fill_slot='s')), use('m3'), indent=2,
                                          repeat=['x', py('seq')])),
          [['who', 'int', 0], ['seq', 'len', 1]])
+    mouter = el('q', 'O[', use('m3'), ']', define_macro='mouter')
+    same('unknown-fill-nested', el('div', el('hide', m3, mouter, condition=py('False')), '|',
+                                   use('mouter', el('li', 'LEAK', fill_slot='s'))), [])
     same('filled-then-same-macro-unfilled', el('div', el('hide', m3, condition=py('False')), '|',
                                                use('m3', el('li', 'F', fill_slot='s')), '|', use('m3')), [])
     # use with define/condition on the using element
